@@ -315,7 +315,7 @@ pub fn main_small(tier: Option<&str>) {
     for k in 5..=kmax {
         lengths.extend([k * max - 1, k * max, k * max + 1]);
     }
-    let (crossings, most_additional) = datamap_crossings(max, run.pick(64, 1024) * max);
+    let (crossings, most_additional) = datamap_crossings(max, run.pick(128, 1024) * max);
     lengths.extend(crossings.iter().cloned());
     lengths.sort();
     lengths.dedup();
